@@ -338,7 +338,14 @@ def run(ctx):
                 "loading paths, with and without data file, then saved and reloaded; hand-written headers: key spelling/case/blank runs, "
                 "ULXMAP/XDIM aliases, NODATA/NODATA_VALUE with integer and float tokens, byte orders I/M/other, 20 pixel "
                 "type spellings, valid and invalid NBITS, missing/unparsable/one-token lines, raw data of right and wrong "
-                "length; dictionaries with optional keys removed; clips with corners anywhere inside the extent; "
+                "length; larger shapes (one long row/column, rectangles on either side of 4 KiB..1 MiB of data) saved and loaded "
+                "through every path and as hand-written big-endian rasters; dictionaries with optional keys removed; "
+                "clips with corners anywhere inside the extent, and with corners ON the parent's lattice (cell edges as "
+                "computed / correctly rounded / one binary64 step either side, the extent's own corner, cell centres, round "
+                "decimal coordinates, whole extent) x decimal, thirds, arc-second, metric, dyadic and arbitrary cell sizes x "
+                "round / whole-cell / half-cell / arbitrary origins x grids of 1 to 850 cells a side x georeferencing "
+                "assigned after construction x clips of clips x corners given as float / numpy scalar / int, judged by exact "
+                "rationals from the clip's own georeferencing; "
                 "catchments with and without inlets; non-trivial = distinct (kind, dtype, outcome class...) signature")
     ctx.trusted = cm.STD_TRUST + [
         "Python's float printing/parsing (repr/format, float(), numpy str(scalar), numpy scalar constructors from "
